@@ -175,7 +175,7 @@ Qed.
 Lemma step_infos s o :
   infos (fst (step s o)) = match o with ORefresh inv => inv | _ => infos s end.
 Proof.
-  destruct o as [inv|p rq|p|p|p|p al| |p al|p]; cbn [step]; auto.
+  destruct o as [inv|p rq|p|p|p|p al| |p al|p|p rq vs]; cbn [step]; auto.
   - destruct (lookup p (envrec s)); auto. destruct (allocate _ _ _); auto.
   - destruct (lookup p (envrec s)) as [[da [|]]|]; auto.
   - destruct (lookup p (envrec s)) as [[da b]|]; auto.
@@ -190,7 +190,7 @@ Lemma step_inv s o :
   ugood s -> wgood s -> op_wf o = true -> is_env_op o = false ->
   inv_ok (ledgers s) -> inv_ok (ledgers (fst (step s o))).
 Proof.
-  intros U W Hwf He I. destruct o as [inv|p rq|p|p|p|p al| |p al|p]; try discriminate; cbn [step].
+  intros U W Hwf He I. destruct o as [inv|p rq|p|p|p|p al| |p al|p|p rq vs]; try discriminate; cbn [step].
   - destruct (lookup p (envrec s)) as [x|] eqn:L; auto.
     destruct (allocate (ledgers s) (infos s) rq) as [|code|da] eqn:A; auto.
     cbn [fst ledgers]. eapply inv_schedule; eauto.
@@ -203,6 +203,7 @@ Proof.
     + eapply inv_ok_ext; [|exact I]. intros t Ht. eapply dup_rm_same; eauto.
   - destruct (lookup p (envrec s)) as [[da b]|] eqn:L; auto. cbn [fst forget ledgers].
     apply inv_remove; auto. eapply wg_rec; eauto.
+  - cbn [fst]. exact I.
 Qed.
 
 (* operations whose output marks them as no-ops leave every ledger alone *)
@@ -210,7 +211,7 @@ Lemma step_frame s o :
   ugood s -> is_frame o (o_code (snd (step s o))) = true ->
   forall t, (t < 3)%nat -> ledger_of (ledgers (fst (step s o))) t = ledger_of (ledgers s) t.
 Proof.
-  intros U. destruct o as [inv|p rq|p|p|p|p al| |p al|p]; cbn [step].
+  intros U. destruct o as [inv|p rq|p|p|p|p al| |p al|p|p rq vs]; cbn [step].
   - cbn. discriminate.
   - destruct (lookup p (envrec s)) as [x|] eqn:L; auto.
     destruct (allocate (ledgers s) (infos s) rq) as [|code|da] eqn:A; auto.
@@ -225,6 +226,7 @@ Proof.
   - cbn. discriminate.
   - destruct (lookup p (envrec s)) as [[old b]|] eqn:L; auto. cbn. discriminate.
   - destruct (lookup p (envrec s)) as [[da b]|] eqn:L; auto. cbn. discriminate.
+  - cbn [fst]. auto.
 Qed.
 
 Lemma check_schedule_ok s k p rq :
